@@ -142,6 +142,7 @@ def one_run(params):
     rng = random.Random(params["rseed"])
     out = {"violations": [], "nontrivial": [], "stats": {}, "evaluations": 0, "sets": {}}
     sim = scen.Sim("c05-%d" % params["idx"], seed)
+    sim.judge_table_invariants = True      # (structural invariants of users[] at every select(): reported like a sanitizer finding)
     try:
         k = sim.k
         extra = []
